@@ -194,3 +194,17 @@ CLAIMS["C24"] = (
     "6/C24", TRUSTED + "; DenseMatrix::rank() itself throws NotImplementedError in this tree, the rank observable is "
     "the pivot list of reduced_row_echelon_form; homogeneous_lde (diophantine.cpp) is not covered",
     "TLA+ exact linear algebra oracle + contracts + TLC trace validation")
+
+CLAIMS["C10"] = (
+    "model_checking",
+    "TLC enumerates ~500 expressions (algebraic; all trigonometric, hyperbolic and inverse functions composed with 9 "
+    "inner arguments; products, quotients, powers, nestings; functions without a rule) and differentiates each by "
+    "the textbook rules written as operator D of module Term (linearity, product, quotient, general power, chain "
+    "rule, true principal-branch derivatives with branch-cut points excluded); TLC validates that the library's "
+    "derivative - with and without the cache, which must return the same object - second derivatives and mixed "
+    "partials have the value of the model's derivative wherever it is defined, and that the derivative with "
+    "respect to an absent symbol is the integer 0",
+    "6/C10", TRUSTED + "; the chain rule for unevaluated Derivative/Subs objects of undefined functions is only "
+    "checked for cache consistency, canonical form and zero (their value cannot be evaluated); the derivative of acosh "
+    "in the left half plane is not decidable in the value domain (no Gaussian perfect-square point within range)",
+    "TLA+ symbolic differentiation + denotational semantics + TLC trace validation")
